@@ -600,8 +600,14 @@ fn crc16_x25(data: &[u8]) -> u16 {
 }
 /// reference HDLC framer: flag, bytes LSB first with bit stuffing after five ones, FCS low byte first, flag
 fn hdlc_frame(payload: &[u8], with_crc: bool, out: &mut Vec<u8>) {
+    hdlc_frame2(payload, with_crc, true, out)
+}
+/// `open`: emit the opening flag (false: the previous frame's closing flag is shared)
+fn hdlc_frame2(payload: &[u8], with_crc: bool, open: bool, out: &mut Vec<u8>) {
     let flag = [0u8, 1, 1, 1, 1, 1, 1, 0];
-    out.extend_from_slice(&flag);
+    if open {
+        out.extend_from_slice(&flag);
+    }
     let mut bytes = payload.to_vec();
     if with_crc {
         let c = crc16_x25(payload);
@@ -643,22 +649,25 @@ fn run_hdlc(seed: u64) -> Result<u64, Fail> {
     for i in 0..rng.below(12) { bits.push((i % 2) as u8); }
     bits.push(0);
     let nframes = 1 + rng.below(5);
+    let mut shared = false; // the bits so far end with a flag that the next frame may use as its opening flag
     for _ in 0..nframes {
-        let len = rng.pick(&[0, 1, 2, 3, 4, 5, 8, 9, 20, 21, 22]);
+        // every length 0..max+2 on the wire is reachable
+        let len = if rng.below(2) == 0 { rng.pick(&[0, 1, 2, 3, 4, 5, 8, 9, 20, 21, 22]) } else { rng.below(max_size + 3) };
         let style = rng.below(4);
         let payload: Vec<u8> = (0..len).map(|_| match style { 0 => 0xff, 1 => 0x7e, 2 => 0x3f, _ => (rng.next() & 0xff) as u8 }).collect();
         let on_wire = len + if with_crc { 2 } else { 0 };
         // what the documented deframer must deliver for this frame
         let deliver = on_wire >= min_size && on_wire <= max_size && (!with_crc || on_wire >= 2);
-        hdlc_frame(&payload, with_crc, &mut bits);
+        hdlc_frame2(&payload, with_crc, !(shared && rng.below(2) == 0), &mut bits);
         if deliver { want.push(payload); }
         // idle: 0..3 extra flags or some zeros (never 6 ones directly before a flag)
         match rng.below(3) {
-            0 => {}
+            0 => { shared = true; }
             1 => {
                 bits.extend_from_slice(&[0, 1, 1, 1, 1, 1, 1, 0]);
+                shared = true;
             }
-            _ => bits.extend_from_slice(&[0, 0, 1, 0]),
+            _ => { bits.extend_from_slice(&[0, 0, 1, 0]); shared = false; }
         }
     }
     bits.extend_from_slice(&[0, 0, 0, 0]);
